@@ -37,7 +37,65 @@ var c06Settings = []struct {
 	{"SetDevelopmentMode(true)", func(e *twig.Engine) { twig.SetDebugWriter(io.Discard); e.SetDevelopmentMode(true) }},
 }
 
+// c06ForeignTemplates: a *Template built by another engine (one without a policy, or with a laxer one) and handed to
+// this engine with RegisterTemplate is confined by THIS engine's policy when it is rendered below a sandboxed include:
+// included, extended, imported.
+func c06ForeignTemplates(res *Result) {
+	type spies struct{ filter, function int }
+	mk := func(s *spies, strict bool) *twig.Engine {
+		e := twig.New()
+		e.AddFilter("spy", func(v interface{}, _ ...interface{}) (interface{}, error) { s.filter++; return v, nil })
+		e.AddFunction("spyfn", func(a ...interface{}) (interface{}, error) { s.function++; return "f", nil })
+		if strict {
+			e.EnableSandbox(&twig.DefaultSecurityPolicy{AllowedFilters: map[string]bool{"upper": true}, AllowedFunctions: map[string]bool{"parent": true, "m": true},
+				AllowedTags: map[string]bool{}})
+		}
+		return e
+	}
+	inner := map[string]string{
+		"filter": "<{{ x|spy }}>", "function": "<{{ spyfn(1) }}>", "for-sequence": "{% for i in xs|spy %}{{ i }}{% endfor %}",
+		"layout": "L({{ x|spy }}{% block b %}{% endblock %})", "library": "{% set t = spyfn(2) %}{% macro m() %}{{ 'q'|spy }}{% endmacro %}",
+	}
+	mains := []struct{ name, inner, sb0 string }{
+		{"included", "filter", "{% include 'foreign' %}"}, {"included-function", "function", "{% include 'foreign' %}"}, {"included-only", "for-sequence", "{% include 'foreign' with {'xs': xs} only %}"},
+		{"direct", "filter", ""}, {"extended", "layout", "{% extends 'foreign' %}{% block b %}c{% endblock %}"}, {"imported", "library", "{% import 'foreign' as L %}{{ L.m() }}"},
+		{"from-imported", "library", "{% from 'foreign' import m %}{{ m() }}"},
+	}
+	for _, laxPolicy := range []bool{false, true} {
+		for _, m := range mains {
+			var sa, sb spies
+			a, b := mk(&sa, false), mk(&sb, true)
+			if laxPolicy {
+				a.EnableSandbox(&twig.DefaultSecurityPolicy{AllowedFilters: map[string]bool{"spy": true, "upper": true}, AllowedFunctions: map[string]bool{"spyfn": true, "parent": true, "m": true}, AllowedTags: map[string]bool{}})
+			}
+			t, err := a.ParseTemplate(inner[m.inner])
+			if err != nil {
+				continue
+			}
+			b.RegisterTemplate("foreign", t)
+			if m.sb0 == "" {
+				b.RegisterString("main", "[{% include 'foreign' sandboxed %}]")
+			} else {
+				b.RegisterString("sb0", m.sb0)
+				b.RegisterString("main", "[{% include 'sb0' sandboxed %}]")
+			}
+			c := Case{"stream": "c06-foreign-templates", "route": m.name, "the other engine has a laxer policy": laxPolicy, "foreign": inner[m.inner], "sb0": m.sb0}
+			res.Hist["stream:c06-foreign-templates"]++
+			res.Evaluations++
+			out, rerr := b.Render("main", map[string]interface{}{"x": "v", "xs": []interface{}{1, 2}})
+			if sa.filter+sa.function+sb.filter+sb.function > 0 {
+				res.add(Finding{Kind: "oracle", Where: "c06-foreign-templates/" + m.name, Case: c, Expected: "no spy invoked: this engine's policy allows neither",
+					Observed: fmt.Sprintf("filter spy %d times, function spyfn %d times; output %q err %v", sa.filter+sb.filter, sa.function+sb.function, out, rerr),
+					Detail:   "a template object parsed by another engine, registered here with RegisterTemplate and rendered below a sandboxed include, ran a callback this engine's policy forbids"})
+			} else if rerr == nil {
+				res.add(Finding{Kind: "oracle", Where: "c06-foreign-templates/" + m.name, Case: c, Expected: "a security violation", Observed: fmt.Sprintf("output %q, no error", out)})
+			}
+		}
+	}
+}
+
 func runC06(cases string, res *Result) {
+	c06ForeignTemplates(res)
 	readCases(cases, func(c Case) {
 		stream := c.str("stream")
 		res.Hist["stream:"+stream]++
